@@ -279,6 +279,19 @@ func probesOf(c *Case) []*Probe {
 			ps = append(ps, specProbe("c11", a.Impl["P"][3:], b.Impl["P"][3:], impl.Hex(c.DF)))
 		}
 		return ps
+	case "qder":
+		// C06: the implementation's tree is judged by the independent derivation checker
+		q := qProbe(c.S, c.DF)
+		ps := []*Probe{q}
+		if strings.HasPrefix(q.Impl["P"], "ok:") {
+			ps = append(ps, specProbe("c06", impl.Hex(c.S), impl.Hex(c.DF), q.Impl["P"][3:]))
+		}
+		return ps
+	case "isolation":
+		// C15 / C14: driver instances are independent values (run first; a shared map would also poison later cases)
+		q := qProbe("a:b", "")
+		q.Lex = &impl.LexObs{Fails: impl.DriverIsolation()}
+		return []*Probe{q}
 	case "qwf":
 		// the implementation's tree is judged by the model's independent shape check (C10)
 		q := qProbe(c.S, c.DF)
@@ -464,10 +477,14 @@ func runCheck(cfg RunConfig) int {
 			case <-tick.C:
 				for i := range e.started {
 					s := e.started[i].Load()
-					if s != 0 && time.Since(time.Unix(0, s)) > 180*time.Second {
-						c, _ := e.watch[i].Load().(Case)
+					c, _ := e.watch[i].Load().(Case)
+					budget := 20 * time.Second
+					if len(c.S) > 5000 {
+						budget = 180 * time.Second
+					}
+					if s != 0 && time.Since(time.Unix(0, s)) > budget {
 						path := filepath.Join(cfg.ReplayDir, cfg.Prop+"-hang.json")
-						writeJSON(path, Failure{Case: c, Class: "crash", Clause: "an implementation call did not return within 180 s (json.Marshal of a 10^4-deep tree, the slowest legitimate call, is quadratic and takes about 30 s)"})
+						writeJSON(path, Failure{Case: c, Class: "crash", Clause: "an implementation call did not return within its budget (20 s for inputs up to 5 kB; 180 s above: json.Marshal of a 10^4-deep tree, the slowest legitimate call, is quadratic and takes about 30 s)"})
 						fmt.Printf("VIOLATION property=%s replay=%s\n", cfg.Prop, path)
 						os.Exit(1)
 					}
